@@ -57,8 +57,8 @@ def args_probe(mode):
         prepend = []
         snap = copy.deepcopy((shared, variants, meta, prepend))
         first = bytes(SynthDef('pa', ns['fa'], shared, prepend, variants, meta).as_bytes())
-        # (the library pads the caller's `rates` list with zeros in place; that is visible to the
-        # caller but does not change any later build, so it is not demanded here — only the bytes are)
+        if repr((shared, variants, meta, prepend)) != repr(snap):
+            problems.append(f'building changed the argument objects it was given: {snap} -> {(shared, variants, meta, prepend)}')
         again = bytes(SynthDef('pb', ns['fb'], shared).as_bytes())
         fresh = bytes(SynthDef('pb', ns['fb'], copy.deepcopy(rates)).as_bytes())
         if again != fresh:
@@ -68,6 +68,44 @@ def args_probe(mode):
         if refirst != first:
             problems.append('rebuilding the first definition with equal arguments gives different bytes')
         digests.append(hashlib.sha1(first + again).hexdigest())
+    # objects owned by the caller and used INSIDE the graph function (channel layouts with silent
+    # channels, frequency tables, prepended arguments): every build of the same function with the
+    # same objects gives the same bytes and leaves the objects as they were
+    from sc3.synth.ugens.inout import ReplaceOut, XOut, OffsetOut
+    from sc3.synth.ugen import ChannelList
+    MUTE = [0, 0]
+    LAYOUT = [[0.0, 0], 0]
+    NEST = [[0, [0, 0.0]], [0]]
+    FREQS = [440, [550, 660]]
+    CL = ChannelList([0, ChannelList([0, 0])])
+
+    def g_mute():
+        Out.ar(0, SinOsc.ar(440)); ReplaceOut.ar(2, MUTE)
+
+    def g_layout():
+        Out.ar(0, SinOsc.ar(440)); ReplaceOut.ar(2, LAYOUT); OffsetOut.ar(6, NEST)
+
+    def g_xout(layout, fade=0.5):
+        Out.ar(0, SinOsc.ar(440)); XOut.ar(4, fade, layout)
+
+    def g_freqs():
+        Out.ar(0, SinOsc.ar(FREQS)); Out.ar(8, CL)
+    shared_cases = [('gm', g_mute, {}, lambda: (MUTE,)), ('gl', g_layout, {}, lambda: (LAYOUT, NEST)),
+                    ('gx', g_xout, {'prepend': [LAYOUT]}, lambda: (LAYOUT,)),
+                    ('gf', g_freqs, {}, lambda: (FREQS, CL))]
+    for name, fn, kw, objs in shared_cases:
+        before = repr(objs())
+        try:
+            builds = [bytes(SynthDef(name, fn, **kw).as_bytes()) for _ in range(3)]
+        except Exception as e:
+            problems.append(f'rebuilding {fn.__name__} with the same caller-owned objects raised {type(e).__name__}: {e}'[:300])
+            continue
+        if len(set(builds)) != 1:
+            problems.append(f'{fn.__name__}: builds of the same function with the same caller-owned channel lists differ '
+                            f'({[len(b) for b in builds]} bytes)')
+        if repr(objs()) != before:
+            problems.append(f'{fn.__name__}: building changed caller-owned objects used in the graph function: {before} -> {repr(objs())[:200]}')
+        digests.append(hashlib.sha1(builds[0]).hexdigest())
     return problems + ['DIGESTS ' + ' '.join(digests)]
 
 
@@ -183,6 +221,47 @@ def run(payload):
         for t in ts2: t.start()
         for t in ts2: t.join()
         out[0]['barrier_current_none'] = samples
+        # third concurrent phase: the same builds with a scheduling delay injected at the build lock:
+        # a proxy around main._def_build_lock hands the processor to the other threads right after
+        # the lock is acquired and right after it is released (delays a correct implementation
+        # cannot observe; they make the windows around the critical section wide)
+        from sc3.base import main as _libsc3
+
+        class DelayLock:
+            def __init__(self, inner):
+                self.inner = inner
+
+            def __enter__(self):
+                r = self.inner.__enter__(); _time.sleep(0.0005); return r
+
+            def __exit__(self, *a):
+                r = self.inner.__exit__(*a); _time.sleep(0.003); return r
+
+            def acquire(self, *a, **k):
+                return self.inner.acquire(*a, **k)
+
+            def release(self):
+                self.inner.release(); _time.sleep(0.003)
+
+            def __getattr__(self, n):
+                return getattr(self.inner, n)
+        delayed = [None] * len(cases)
+        real_lock = _libsc3.main._def_build_lock
+        _libsc3.main._def_build_lock = DelayLock(real_lock)
+        try:
+            def worker3(k):
+                try:
+                    for i in list(range(k, len(cases), nthreads))[:payload.get('delay_cases', 10)]:
+                        delayed[i] = c01.build_program(cases[i]['prog'], residue_check=False, desc=False)['canon']
+                except Exception as e:
+                    errors.append(f'delay phase: {type(e).__name__}: {e}')
+            ts3 = [threading.Thread(target=worker3, args=(k,)) for k in range(nthreads)]
+            for t in ts3: t.start()
+            for t in ts3: t.join()
+        finally:
+            _libsc3.main._def_build_lock = real_lock
+        for i, r in enumerate(out):
+            r['delayed'] = delayed[i]
         sys.setswitchinterval(old_si)
         out[0]['desc_reads_during_builds'] = reads[0]
         for i, r in enumerate(out):
